@@ -876,6 +876,12 @@ class Component(composites.Composite, metaclass=ComponentType):
         except ZeroDivisionError:
             return 0.0
 
+    def _getVolumeForMass(self):
+        """Volume the masses refer to: a component of a block cut by symmetry lines counts only the part inside."""
+        return self.getVolume() / (
+            self.parent.getSymmetryFactor() if self.parent else 1.0
+        )
+
     def getMass(self, nuclideNames=None):
         r"""
         Determine the mass in grams of nuclide(s) and/or elements in this object.
@@ -904,9 +910,7 @@ class Component(composites.Composite, metaclass=ComponentType):
         mass : float
             The mass in grams.
         """
-        volume = self.getVolume() / (
-            self.parent.getSymmetryFactor() if self.parent else 1.0
-        )
+        volume = self._getVolumeForMass()
         nuclideNames = self._getNuclidesFromSpecifier(nuclideNames)
         # densities comes from self.p.numberDensities
         densities = self.getNuclideNumberDensities(nuclideNames)
